@@ -357,3 +357,65 @@ func H_C12_pb() {
 }
 
 var _ = register("H_C12_pb", H_C12_pb)
+
+// H_C12_manifest: hand-written manifests over a stored history - the head list names a head twice or three
+// times, an entry that is not a head, an identifier nothing is stored under, or nothing at all; the log id is
+// empty. Loading such a manifest (any length limit) returns an error or a well-formed log and never panics.
+func H_C12_manifest() {
+	h, L := storedLog()
+	vx.Assume(L.Len() > 0)
+	io := h.io()
+	var heads []cid.Cid
+	for _, e := range L.Heads().Slice() {
+		heads = append(heads, e.GetHash())
+	}
+	all := L.Values().Slice()
+	id := L.GetID()
+	shape := vx.Choice("shape", 7)
+	vx.Sig([]string{"head-twice", "head-three-times", "non-head-entry-listed", "unknown-identifier", "no-heads", "empty-id", "every-entry-twice"}[shape])
+	switch shape {
+	case 0:
+		heads = append(heads, heads[0])
+	case 1:
+		heads = append(heads, heads[0], heads[0])
+	case 2:
+		heads = append(heads, all[0].GetHash())
+	case 3:
+		heads = append(heads, vx.Cid(77))
+	case 4:
+		heads = nil
+	case 5:
+		id = ""
+	case 6:
+		heads = nil
+		for _, e := range all {
+			heads = append(heads, e.GetHash(), e.GetHash())
+		}
+	}
+	m, err := io.Write(ctx, h.api, &iface.JSONLog{ID: id, Heads: heads}, nil)
+	vx.Assert("C12", err == nil, "writing the manifest block succeeds")
+	if err != nil {
+		return
+	}
+	fo := &ipfslog.FetchOptions{Concurrency: 1}
+	if lim := vx.Choice("limit", 3); lim > 0 {
+		n := lim - 1 // 0 or 1
+		fo.Length = &n
+	}
+	N, lerr := ipfslog.NewFromMultihash(ctx, h.api, h.ids[0], m, &ipfslog.LogOptions{ID: "X", IO: io, SortFn: h.sortFn()}, fo)
+	vx.Assert("C12", lerr != nil || N != nil, "loading an untrusted manifest returns an error or a log")
+	vx.Cover("manifest-loaded")
+	if lerr != nil || N == nil {
+		vx.Cover("manifest-refused")
+		return
+	}
+	stored := hashSet(all)
+	vx.Assert("C12", subset(hashSet(entriesOf(N)), stored), "a log loaded from an untrusted manifest holds stored entries only")
+	vx.Assert("C12", subset(hashSet(N.Heads().Slice()), hashSet(entriesOf(N))), "the heads of a log loaded from an untrusted manifest are entries of that log")
+	_ = N.Values().Slice()
+	if _, aerr := N.Append(ctx, []byte("after"), nil); aerr == nil {
+		vx.Cover("manifest-log-appended")
+	}
+}
+
+var _ = register("H_C12_manifest", H_C12_manifest)
